@@ -362,7 +362,7 @@ def gen_c17(g, run_seed, tier, opts):
             "tier": tier, "steps": steps}
 
 
-def panel_configs(verif_seed):
+def panel_configs(verif_seed, tier="quick"):
     import random
     g = random.Random("panel:%d" % verif_seed)
     out = []
@@ -440,10 +440,10 @@ def panel_configs(verif_seed):
                     "k": 0, "rand": "rademacher", "max_iters": 1})
     out.append({"recipe": {"k": "diag", "n": 10500 + g.randrange(200), "dtype": "f4", "seed": g.randrange(1 << 20), "pos": False},
                 "k": 0, "rand": "normal", "max_iters": 1, "K": 48, "T": 10.0})
-    return out + panel_configs_structured(verif_seed)
+    return out + panel_configs_structured(verif_seed, tier)
 
 
-def panel_configs_structured(verif_seed):
+def panel_configs_structured(verif_seed, tier="quick"):
     """The estimator as reached through `cola.linalg.diag / trace (A, alg=Hutch(key=...))` on structured operators: the
     dispatch rules split the request over the parts (sum, blocks and their multiplicities, Kronecker factors, ...) and
     recombine the parts' estimates; the recombination must still be unbiased for the requested diagonal / trace and exact
@@ -498,6 +498,14 @@ def panel_configs_structured(verif_seed):
             for what in ("diag", "trace"):
                 out.append({"via": "dispatch", "what": what, "name": name + "/iters=6", "recipe": rec, "k": 0, "rand": "normal",
                             "max_iters": 6, "K": 4096})
+    # the same through Auto when it picks the stochastic branch by itself (tol >= 1 / sqrt(10 n^2) of the operator -- or of a PART,
+    # if a rule hands Auto to the parts): 8 x 8 parts, tol 0.04, four blocks per call
+    for name, rec in [("kron-equal-8", {"k": "kron", "args": [G(8), G(8)]}),
+                      ("kron-products-8", {"k": "kron", "args": [{"k": "product", "args": [G(8), G(8)]}, {"k": "product", "args": [G(8), G(8)]}]}),
+]:  # (no BlockDiag / Sum here: their rules DO hand Auto to the 8 x 8 parts, where tol 0.04 sometimes stops early)
+        for what in ("diag", "trace") if tier == "thorough" else ("diag", ):
+            out.append({"via": "dispatch", "alg": "Auto", "what": what, "name": name + "/auto", "recipe": rec, "k": 0, "rand": "normal",
+                        "max_iters": 4, "tol": 0.04, "K": 16384 if tier == "thorough" else 8192})
     # off-diagonals through the rules that accept them (sums, scalar multiples incl. complex scalars, negation, products,
     # transposes and adjoints -- where the sign of the offset flips): a rule that refuses an offset is skipped
     def Gc(n):
